@@ -92,6 +92,22 @@ def _nest_obj(v):
     return v
 
 
+class HostFn:
+    """a host helper handed to the script; its result is converted with the context's own converter (a host callable's result reaches
+    the script as it is)"""
+
+    def __init__(self, fn):
+        self.fn = fn
+
+    def bind(self, ctx):
+        return lambda v: ctx._to_js(self.fn(v))
+
+
+def set_all(ctx, sets):
+    for nm, val in sets:
+        ctx.set(nm, val.bind(ctx) if isinstance(val, HostFn) else val)
+
+
 def hostile(a, params):
     """(JavaScript text, prelude pieces, values to set) of a hostile class; None if the class is not hostile"""
     kind, _, m = a.partition("_")
@@ -108,9 +124,9 @@ def hostile(a, params):
     if a == "cyc_obj":
         return "(function () { var o = {a: 1}; o.self = o; return o })()", [], []
     if a == "deep_arr":
-        return "__deep_arr", ["deep_arr"], [("__nl", _nest_list)]
+        return "__deep_arr", ["deep_arr"], [("__nl", HostFn(_nest_list))]
     if a == "deep_obj":
-        return "__deep_obj", ["deep_obj"], [("__no", _nest_obj)]
+        return "__deep_obj", ["deep_obj"], [("__no", HostFn(_nest_obj))]
     if a in TEXTS:
         return "__" + a, [], [("__" + a, TEXTS[a](params["HostileSize"]))]
     return None
@@ -268,8 +284,7 @@ def _discover(api, recv, params):
         return found
     pieces, sets = [], []
     rsrc = recv_src(recv, params, pieces, sets)
-    for nm, val in sets:
-        ctx.set(nm, val)
+    set_all(ctx, sets)
     ctx.set("__names", names)
     src = (prelude(pieces, params) + "var __r = %s; var __o = []; for (var __i = 0; __i < __names.length; __i++) { "
            "try { if (typeof __r[__names[__i]] === 'function') __o.push(__names[__i]); } catch (e) {} } __o" % rsrc)
@@ -504,6 +519,7 @@ def grid(case, api):
         ops = [op for op in ops if "op:" + op["n"] == case["only"]]
     use_src = "".join("try { %s } catch (__e) {} " % u.replace("@U", "__u") for u in case.get("use", []))
     oppairs = {tuple(v) for v in case.get("oppairs", [])}
+    usevecs = {tuple(v) for v in case.get("usevecs", [])}
     todo = [(fn, form, None, vec) for fn in fns for form in forms for vec in case["vecs"]]
     todo += [("op:" + op["n"], "op", op, vec) for op in ops for vec in case["vecs"]
              if len(vec) == op["ar"] and (op["ar"] < 2 or tuple(vec) in oppairs)]
@@ -537,8 +553,7 @@ def grid(case, api):
 
         def call_fn(src=src, sets=sets, box=box, pre=pre):
             ctx = api.Context(time_limit=1.0)
-            for nm, val in sets:
-                ctx.set(nm, val)
+            set_all(ctx, sets)
             box.append(ctx)
             if pre:
                 harness_eval(ctx, pre)
@@ -546,7 +561,7 @@ def grid(case, api):
         out = run_patient(api, call_fn)
         pv = out.pop("pv", None)
         use = None
-        if op is None and use_src and out["o"] == "value" and is_object_result(pv):
+        if op is None and use_src and out["o"] == "value" and is_object_result(pv) and tuple(vec) in usevecs:
             ctx = box[-1]
             use = run_patient(api, lambda: harness_eval(ctx, use_src))
             use.pop("pv", None)
